@@ -3,9 +3,12 @@ package rules
 import (
 	"fmt"
 	"go/ast"
+	"go/constant"
 	"go/token"
 	"go/types"
+	"regexp"
 	"sort"
+	"strconv"
 	"strings"
 
 	"jetverif/an"
@@ -17,7 +20,7 @@ func init() {
 		Run: runC02,
 		Meta: an.Meta{
 			Technique: "typestate analysis of the lexer cursor across the state-function graph (interprocedural summaries), nullable-result belief rule, panic-value typing and error discipline over all parser functions, loop-progress/eof-exit lints, and ordering rules for the lexer goroutine's shutdown",
-			Explanation: "Crash- and leak-preconditions of parsing: (C02.width) lexer.backup() is only valid while lexer.width describes the rune consumed last; a typestate (FRESH after next, USED after backup) is " +
+			Explanation: "Crash- and leak-preconditions of parsing: (C02.index) every constant index into a string or slice in lexer and parser code is dominated by a length test that covers it (or the operand is non-empty by a named invariant); (C02.width) lexer.backup() is only valid while lexer.width describes the rune consumed last; a typestate (FRESH after next, USED after backup) is " +
 				"propagated through every lexer function with computed method summaries (peek, accept, …, including the save/restore-width idiom) and through the state machine (the entry state of a " +
 				"state function is the join of the states at every `return thatState`); every backup must find FRESH. (C02.nil) a parser function with a pointer/interface result that can return nil " +
 				"is nullable, and every call site must test the result before calling a method on it or asserting its type. (C02.panicval) every panic in a function reachable from Set.parse has " +
@@ -32,6 +35,10 @@ func init() {
 		Mutants: []Mutant{
 			{Name: "closing comment marker searched from the opening marker (agent seed C02/1)", File: "lex.go", Old: "\tl.pos += Pos(len(l.leftComment))\n\ti := strings.Index(l.input[l.pos:], l.rightComment)", New: "\ti := strings.Index(l.input[l.pos:], l.rightComment)", Rule: "C02.struct"},
 			{Name: "peek clobbers width (original defect)", File: "lex.go", Old: "\twidth := l.width\n\tr := l.next()\n\tl.backup()\n\tl.width = width // keep describing the last consumed rune, so backup() stays valid after peek()\n\treturn r", New: "\tr := l.next()\n\tl.backup()\n\treturn r", Rule: "C02.width"},
+			{Name: "trim-marker test indexes one byte past its length check (agent seed C02/3)", File: "lex.go", Old: "\t\t\t\tif strings.HasPrefix(l.input[l.pos+ld:], leftTrimMarker) {", New: "\t\t\t\tif s := l.input[l.pos+ld:]; len(s) >= 1 && s[0] == '-' && isSpace(rune(s[1])) {", Rule: "C02.index"},
+			{Name: "equivalent: trim-marker test by bytes with a sufficient length check", File: "lex.go", Old: "\t\t\t\tif strings.HasPrefix(l.input[l.pos+ld:], leftTrimMarker) {", New: "\t\t\t\tif s := l.input[l.pos+ld:]; len(s) >= 2 && s[0] == '-' && s[1] == ' ' {", Rule: "-"},
+			{Name: "a configuration error is raised before the lexer goroutine runs (agent seed C02/4)", File: "parse.go", Old: "\tlexer.run()\n\tt.startParse(lexer)\n", New: "\tt.startParse(lexer)\n\tif lexer.leftDelim == lexer.leftComment {\n\t\tt.errorf(\"ambiguous delimiters\")\n\t}\n\tlexer.run()\n", Rule: "C02.drain"},
+			{Name: "equivalent: startParse and run swapped with nothing in between", File: "parse.go", Old: "\tlexer.run()\n\tt.startParse(lexer)\n", New: "\tt.startParse(lexer)\n\tlexer.run()\n", Rule: "-"},
 			{Name: "double backup in lexField", File: "lex.go", Old: "\t\tif !isAlphaNumeric(r) {\n\t\t\tl.backup()\n\t\t\tbreak\n\t\t}\n\t}\n\tif !l.atTerminator() {", New: "\t\tif !isAlphaNumeric(r) {\n\t\t\tl.backup()\n\t\t\tbreak\n\t\t}\n\t}\n\tl.backup()\n\tif !l.atTerminator() {", Rule: "C02.width"},
 			{Name: "parseCatch dereferences a nil term (original defect)", File: "parse.go", Old: "\t\tif _errVar == nil {\n\t\t\tt.unexpected(t.next(), \"catch\", \"identifier\")\n\t\t}\n", New: "", Rule: "C02.nil"},
 			{Name: "string panic in a parser helper", File: "parse.go", Old: "\t\t\tt.errorf(\"unexpected node in assign\")", New: "\t\t\tpanic(\"unexpected node in assign\")", Rule: "C02.panicval"},
@@ -55,6 +62,7 @@ func runC02(c *an.Ctx) {
 	c02eof(c)
 	c02struct(c)
 	c02drain(c)
+	c02index(c)
 }
 
 // ------------------------------------------------------------------------------------------- C02.width
@@ -780,6 +788,53 @@ func c02drain(c *an.Ctx) {
 		c.Check(deferPos.IsValid() && runPos.IsValid() && deferPos < runPos, "C02.drain", "(*Set).parse/recover-before-run", f.Pos(), "Template.recover is deferred before the lexer goroutine is started",
 			"Set.parse starts the lexer goroutine before deferring Template.recover: a panic in between would leave the goroutine blocked forever")
 	}
+	// once the template knows its lexer (startParse), a parse failure makes Template.recover drain the
+	// lexer's channel; that terminates only if the lexer goroutine is running.  So between startParse and
+	// lexer.run() nothing may raise a parse error.
+	if f := c.Fn("C02.drain", "(*Set).parse"); f != nil {
+		raise := p.FnsReaching("builtin.panic")
+		var bad *ast.CallExpr
+		nRun := 0
+		hooks := an.Hooks{
+			Call: func(x *an.Explorer, call *ast.CallExpr, st *an.State) {
+				name := an.CalleeName(info, call)
+				switch {
+				case name == "(*jet.lexer).run", name == "jet.lex" && len(call.Args) == 3 && an.Str(call.Args[2]) == "true":
+					st.Set("running", "1")
+					nRun++
+					return
+				case name == "(*jet.Template).startParse":
+					st.Set("lexset", "1")
+					return
+				}
+				if st.Get("lexset") == "" || st.Get("running") != "" || bad != nil {
+					return
+				}
+				if p.CallNeverReturns(info, call) {
+					bad = call
+					return
+				}
+				if g := p.FnByObj[an.Callee(info, call)]; g != nil && raise[g] {
+					bad = call
+				}
+			},
+			PreAssign: func(x *an.Explorer, lhs, rhs ast.Expr, stmt ast.Node, st *an.State) {
+				if p.FieldKey(info, lhs) == "Template.lex" && rhs != nil && an.Str(rhs) != "nil" {
+					st.Set("lexset", "1")
+				}
+			},
+		}
+		x := p.NewExplorer(f, hooks)
+		x.Run(nil)
+		c.States += x.Visited
+		if nRun == 0 {
+			c.Anchor("C02.drain", "start of the lexer goroutine in (*Set).parse")
+		} else if bad != nil {
+			c.Bad("C02.drain", "(*Set).parse/no-failure-before-run", bad.Pos(), nil, "%s can raise a parse error after the template was given its lexer but before the lexer goroutine runs: Template.recover then drains a channel nobody will ever close, and Parse/GetTemplate hang forever", an.Str(bad.Fun))
+		} else {
+			c.OK("C02.drain", "(*Set).parse/no-failure-before-run", f.Pos(), "nothing can raise a parse error between startParse and the start of the lexer goroutine")
+		}
+	}
 	if f := c.Fn("C02.drain", "(*Template).recover"); f != nil {
 		hooks := an.Hooks{Call: func(x *an.Explorer, call *ast.CallExpr, st *an.State) {
 			switch an.CalleeName(info, call) {
@@ -872,4 +927,152 @@ func c02drain(c *an.Ctx) {
 		}
 	}
 	c.Expect("C02.drain", "state functions ending the scan by `return nil`", n, 1)
+}
+
+// ------------------------------------------------------------------------------------------- C02.index
+//
+// The lexer runs in its own goroutine, where an index-out-of-range panic cannot be recovered by
+// Template.recover and kills the process; in the parser it surfaces as a re-panicked runtime error.
+// Every index expression with a constant index into a string or slice in lex.go / parse.go / node.go
+// must therefore be dominated by a length test that covers the index (len(x) > k, len(x) >= k+1,
+// len(x) == n with n > k, x != "" for k = 0).  Exceptions are single named operands whose
+// non-emptiness is an invariant established elsewhere, each with its reason.
+var indexInvariants = map[string]string{
+	"lexer.leftDelim":    "set only from non-empty values (constructor default; setDelimiters stores a parameter only under param != \"\", C03.delims)",
+	"lexer.leftComment":  "set only from non-empty values (constructor default; setCommentDelimiters stores a parameter only under param != \"\", C03.delims)",
+	"lexIdentifier/word": "lexIdentifier is entered only with an alphanumeric rune pending (lexInsideAction backs up over it), so input[start:pos] holds at least that rune",
+}
+
+func c02index(c *an.Ctx) {
+	p := c.P
+	n := 0
+	for _, f := range p.Units() {
+		if f.Pkg != p.Jet || f.Body == nil || f.Lit != nil {
+			continue
+		}
+		file := p.Fset.Position(f.Pos()).Filename
+		if !(strings.HasSuffix(file, "/lex.go") || strings.HasSuffix(file, "/parse.go") || strings.HasSuffix(file, "/node.go")) {
+			continue
+		}
+		info := f.Info()
+		type site struct {
+			ix *ast.IndexExpr
+			k  int64
+		}
+		sites := map[ast.Expr]site{}
+		an.InspectOwn(f, func(nd ast.Node) bool {
+			ix, ok := nd.(*ast.IndexExpr)
+			if !ok {
+				return true
+			}
+			tv, ok := info.Types[ix.X]
+			if !ok || tv.Type == nil || tv.Value != nil { // a constant operand is checked by the compiler
+				return true
+			}
+			switch u := tv.Type.Underlying().(type) {
+			case *types.Slice:
+			case *types.Basic:
+				if u.Info()&types.IsString == 0 {
+					return true
+				}
+			default:
+				return true
+			}
+			kv, ok := info.Types[ix.Index]
+			if !ok || kv.Value == nil {
+				return true
+			}
+			k, exact := constant.Int64Val(kv.Value)
+			if !exact {
+				return true
+			}
+			sites[an.Unparen(ix.X)] = site{ix, k}
+			return true
+		})
+		if len(sites) == 0 {
+			continue
+		}
+		c.FnsAnalysed[f.Name] = true
+		verdict := map[*ast.IndexExpr]string{} // "" = guarded on every visit so far
+		seen := map[*ast.IndexExpr]bool{}
+		numRe := regexp.MustCompile(`^-?\d+$`)
+		hooks := an.Hooks{Use: func(x *an.Explorer, e ast.Expr, st *an.State) {
+			s, ok := sites[e]
+			if !ok {
+				return
+			}
+			seen[s.ix] = true
+			key, ok := x.Key(e)
+			if !ok {
+				verdict[s.ix] = "the operand is not a trackable expression"
+				return
+			}
+			pk := an.PlainKey(key)
+			lenK := "len(" + pk + ")"
+			guarded := false
+			for fk, fv := range st.Facts {
+				fp := an.PlainKey(fk)
+				switch {
+				case strings.HasPrefix(fp, lenK+" < ") && !fv: // len(x) >= N
+					if r := strings.TrimPrefix(fp, lenK+" < "); numRe.MatchString(r) {
+						if N, _ := strconv.ParseInt(r, 10, 64); N >= s.k+1 {
+							guarded = true
+						}
+					}
+				case strings.HasSuffix(fp, " < "+lenK) && fv: // N < len(x)
+					if l := strings.TrimSuffix(fp, " < "+lenK); numRe.MatchString(l) {
+						if N, _ := strconv.ParseInt(l, 10, 64); N >= s.k {
+							guarded = true
+						}
+					}
+				case (fp == lenK+" == 0" || fp == "0 == "+lenK || fp == pk+` == ""` || fp == `"" == `+pk) && !fv:
+					if s.k == 0 {
+						guarded = true
+					}
+				}
+			}
+			for rk, rv := range st.Regs {
+				if an.PlainKey(rk) == "eq:"+lenK && numRe.MatchString(rv) {
+					if N, _ := strconv.ParseInt(rv, 10, 64); N >= s.k+1 {
+						guarded = true
+					}
+				}
+			}
+			if !guarded {
+				verdict[s.ix] = "no length test covering the index holds on a path to it (facts: " + strings.Join(an.Facts(st), "; ") + ")"
+			} else if _, had := verdict[s.ix]; !had {
+				verdict[s.ix] = ""
+			}
+		}}
+		x := p.NewExplorer(f, hooks)
+		x.Run(nil)
+		c.States += x.Visited
+		var list []*ast.IndexExpr
+		for _, s := range sites {
+			list = append(list, s.ix)
+		}
+		sort.Slice(list, func(i, j int) bool { return list[i].Pos() < list[j].Pos() })
+		for _, ix := range list {
+			n++
+			key := f.Name + "/" + an.Str(ix)
+			// named invariants
+			inv := ""
+			if fk := p.FieldKey(info, an.Unparen(ix.X)); indexInvariants[fk] != "" {
+				inv = indexInvariants[fk]
+			} else if r := indexInvariants[f.Name+"/"+an.Str(ix.X)]; r != "" {
+				inv = r
+			}
+			switch {
+			case inv != "":
+				c.OK("C02.index", key, ix.Pos(), "non-empty by invariant: %s", inv)
+			case !seen[ix]:
+				c.Undecided("C02.index", key, ix.Pos(), "the index expression was not reached by the exploration")
+			case verdict[ix] != "":
+				c.Bad("C02.index", key, ix.Pos(), nil, "%s in %s can be evaluated when the operand is too short (%s): the index panics; in the lexer goroutine this cannot be recovered and kills the process", an.Str(ix), f.Name, verdict[ix])
+			default:
+				c.OK("C02.index", key, ix.Pos(), "the index is covered by a length test on every path")
+			}
+		}
+	}
+	c.Expect("C02.index", "constant index expressions into strings/slices in lexer and parser", n, 4)
 }
